@@ -257,6 +257,8 @@ def malformed_case(r, ctx, i):
     # the terminator of the last good document: the malformed text may directly follow '...' (nothing may be read ahead
     # of the DOCUMENT-END) or a plain document boundary
     sep = r.choice(['', '...\n', '...\n# c\n', '# gap\n' * r.choice([1, 50])])
+    if bad.startswith('%') and '...' not in sep:
+        sep = '...\n' + sep       # without an end marker the malformed directive line is itself the token that would end the previous document
     tail = r.choice(['', '--- after\n', 'x' * 20000 + '\n'])
     text = good + sep + bad + tail
     for lname in yamlapi.loaders(['SafeLoader', 'CSafeLoader']):
